@@ -209,8 +209,32 @@ func (s String) with(at int, char rune) Set {
 			holes:  s.holes,
 		}
 	}
-	// TODO: Support adding holes and doubling up chars, removing the need to
-	// call newGenericSetFromSet here.
+	switch {
+	case i == -1:
+		// Beyond either end: grow the string, marking the gap as holes.
+		lo, hi := s.offset, s.offset+len(s.s)
+		if at < lo {
+			lo = at
+		}
+		if at >= hi {
+			hi = at + 1
+		}
+		runes := make([]rune, hi-lo)
+		for j := range runes {
+			runes[j] = -1
+		}
+		copy(runes[s.offset-lo:], s.s)
+		runes[at-lo] = char
+		return String{s: runes, offset: lo, holes: s.holes + len(runes) - len(s.s) - 1}
+	case s.s[i] < 0:
+		// Fill a hole.
+		runes := make([]rune, len(s.s))
+		copy(runes, s.s)
+		runes[i] = char
+		return String{s: runes, offset: s.offset, holes: s.holes - 1}
+	}
+	// TODO: Support doubling up chars, removing the need to call
+	// newGenericSetFromSet here.
 	return newGenericSetFromSet(s).With(NewStringCharTuple(at, char))
 }
 
